@@ -100,7 +100,7 @@ theorem wt_cond (Γ : Env) (π : List String) (c t f : Node) (ty : Ty) (exp : Op
       WTN (Γ.smartCast c) (π ++ ["then"]) t exp (condTag tag) ∧
       WTN Γ (π ++ ["else"]) f exp (condTag tag) ∧
       (Judg.asg (synth (Γ.smartCast c) t) ty).Holds Γ.lt ∧ (Judg.asg (synth Γ f) ty).Holds Γ.lt := by
-  simp only [WTN, obs, List.forall_mem_append, List.forall_mem_cons, ob, and_assoc]
+  simp only [WTN, obs, List.forall_mem_append, List.forall_mem_cons, ob, and_assoc, Env.lt_smartCast]
   simp
 
 /-- **argument lists** (call, constructor, super-constructor, array elements): each argument is
@@ -123,11 +123,11 @@ theorem wt_block_cons (Γ : Env) (π : List String) (i : Nat) (s s' : Node) (res
     WTBlock Γ π i (s :: s' :: rest) exp tag ↔
       WTN (Γ.extendF s) (π ++ [toString i]) s none "" ∧
       WTBlock (Γ.extend s) π (i + 1) (s' :: rest) exp tag := by
-  simp only [WTBlock, WTN, obsBlock, List.forall_mem_append]
+  simp only [WTBlock, WTN, obsBlock, List.forall_mem_append, Env.lt_extend, Env.lt_extendF]
 
 theorem wt_block_last (Γ : Env) (π : List String) (i : Nat) (s : Node) (exp : Option Ty) (tag : String) :
     WTBlock Γ π i [s] exp tag ↔ WTN (Γ.extendF s) (π ++ [toString i]) s exp tag := by
-  simp only [WTBlock, WTN, obsBlock]
+  simp only [WTBlock, WTN, obsBlock, Env.lt_extendF]
 
 theorem wt_block (Γ : Env) (π : List String) (body : List Node) (isF : Bool) (exp : Option Ty) (tag : String) :
     WTN Γ π (.block body isF) exp tag ↔ WTBlock Γ π 0 body exp tag := by
@@ -156,7 +156,7 @@ theorem wt_funcDecl (Γ : Env) (π : List String) (nm : String) (ps : List Node)
       (∀ o ∈ typeWfL Γ.classes (π ++ ["func:" ++ nm]) (tps.filterMap boundOf), o.j.Holds Γ.lt) ∧
       (∀ o ∈ obsParams Γ (π ++ ["func:" ++ nm]) ps, o.j.Holds Γ.lt) ∧
       WTN (Γ.bindParams ps) (π ++ ["func:" ++ nm] ++ ["body"]) b (some (deproj Γ.lt τ)) "result" := by
-  simp only [WTN, obs, expectOb, List.nil_append, List.forall_mem_append, Option.map, and_assoc]
+  simp only [WTN, obs, expectOb, List.nil_append, List.forall_mem_append, Option.map, and_assoc, Env.lt_bindParams]
 
 /-- **default argument** -/
 theorem wt_paramDecl (Γ : Env) (π : List String) (nm : String) (t : Ty) (va : Bool) (d : Node) :
@@ -179,7 +179,7 @@ theorem wt_lambda (Γ : Env) (π : List String) (nm : String) (ps : List Node) (
     (sig : Option Ty) :
     WTN Γ π (.lambda nm ps ret body sig) none "" ↔
       WTN (Γ.bindParams ps) (π ++ ["lambda:" ++ nm]) body (ret.map (deproj Γ.lt)) "lambda-body" := by
-  simp only [WTN, obs, expectOb, List.nil_append]
+  simp only [WTN, obs, expectOb, List.nil_append, Env.lt_bindParams]
 
 /-- **class obligations**: in a well-typed class whose superclass `sc` is found, the superclass
     is not final, an interface only extends an interface, a regular class implements every
@@ -195,10 +195,14 @@ theorem wt_class_super (Γ : Env) (π : List String) (nm : String) (ct : Nat) (f
     (∀ g ∈ funcs, ∀ o ∈ overrideObs Γ.lt (π ++ ["class:" ++ nm])
         ((chainOf Γ.classes (clsFuel Γ.classes)
           (.classDecl nm ct fin fields (.superInst st sargs :: more) funcs tps) []).drop 1) g, o.j.Holds Γ.lt) := by
-  simp only [WTN, obs, hc, List.forall_mem_append, List.forall_mem_cons, ob, Judg.Holds] at h
-  obtain ⟨⟨_, _, _, hfin, hif, _, habs, hov, _⟩, _⟩ := h
-  refine ⟨by simpa using hfin, ?_, ?_, ?_⟩
-  · intro h1; subst h1; simpa using hif
+  have e := obs.eq_def Γ π (.classDecl nm ct fin fields (.superInst st sargs :: more) funcs tps) none ""
+  simp only [] at e
+  unfold WTN at h
+  rw [e, hc] at h
+  simp only [List.forall_mem_append, List.forall_mem_cons, ob] at h
+  obtain ⟨⟨_, _, hfin, hif, ⟨⟨_, habs⟩, hov⟩, _⟩, _⟩ := h
+  refine ⟨by simpa [Judg.Holds] using hfin, ?_, ?_, ?_⟩
+  · intro h1; subst h1; simpa [Judg.Holds] using hif
   · intro h0; subst h0; simpa using habs
   · intro g hg o ho
     exact hov o (List.mem_flatMap.2 ⟨g, hg, ho⟩)
@@ -236,7 +240,7 @@ theorem condType_upper_partial {α : Type} (sub : α → α → Bool) (hr : ∀ 
     by_cases h4 : sub f t = true
     · simp [h4, hr]
     · have h5 : sub t f = true := by rcases h3 with h | h; exact absurd h h4; exact h
-      simp only [h4]
+      simp only [h4, Bool.false_eq_true, if_false]
       exact ⟨h5, hr f⟩
 
 private def anyK : Ty := builtin "<class 'src.ir.kotlin_types.AnyType'>" "Any" false false []
@@ -249,7 +253,8 @@ private def floatK : Ty := builtin "<class 'src.ir.kotlin_types.FloatType'>" "Fl
     true branch `Float`.  The harness replays the same three draws against `gen_conditional`'s
     fold and finds such conditionals in generated programs of every language. -/
 theorem condType_counterexample :
-    condTypeTy longK floatK longK = longK ∧ isSubtype floatK (condTypeTy longK floatK longK) = .no := by
+    Ty.beq (condTypeTy longK floatK longK) longK = true ∧
+      isSubtype floatK (condTypeTy longK floatK longK) = .no := by
   decide
 
 theorem condType_upper_false : ¬ condType_upper := by
